@@ -125,15 +125,25 @@ impl crate::graph::GraphRunner for MTGraph {
             threads.push(th);
         }
         debug!("Joining threads");
+        let mut first_err = None;
         for (n, th) in threads.into_iter().rev().enumerate() {
             let name = th.thread().name().unwrap().to_string();
             debug!("Waiting for {}", name);
-            let j = th
-                .join()
-                .expect("joining thread")
-                .expect("block exit status");
+            let j = match th.join().expect("joining thread") {
+                Ok(j) => j,
+                Err(e) => {
+                    // A block failed. Stop the rest of the graph, but still
+                    // join every thread before reporting the first error.
+                    self.cancel_token.cancel();
+                    first_err.get_or_insert(e);
+                    continue;
+                }
+            };
             debug!("Thread {} finished with {:?}", name, j);
             self.block_stats.insert((n, name), j);
+        }
+        if let Some(e) = first_err {
+            return Err(e);
         }
         self.spent_time = Some(st.elapsed());
         self.spent_cpu_time = Some(get_cpu_time() - run_start_cpu);
